@@ -1,5 +1,6 @@
 """C14 derivations exact and in-group."""
 from framework import *
+from drivers import _hkdf as drivers_hkdf
 from drivers import *
 import pure
 
@@ -50,6 +51,41 @@ def run(ctx):
         t = Trace("constants/" + g, uni)
         t.raw(pure.ev_params_sound(uni, ps, g))       # live M, N, S are the released constants
         traces.append(t.to_json())
+
+    # custom groups of unusual shape (core.zoo): HKDF output lengths of several hash blocks plus a partial one
+    # (s600: 75-byte elements, 91-byte password expansion; m521: 66 bytes), one-byte q, q filling its bytes
+    zl = ["s600", "m521", "q251", "q64full", "s136", "s264", "s72a", "s72b", "m64", "m65"]
+    for g in (zl if thorough else zl[:4]):
+        uni.group(g)
+        ins = (inputs[:20] + sweep[::7]) if thorough else inputs[:8] + sweep[ctx.seed % 9::9]
+        for i in range(0, len(ins), 2):
+            t = Trace("derive/%s/%d" % (g, i), uni)
+            for x in ins[i:i + 2]:
+                t.raw(pure.ev_pw2s(uni, g, x))
+                t.raw(pure.ev_arb(uni, g, x))
+            traces.append(t.to_json())
+    # Ed25519 seeds chosen (with the harness's own HKDF - input selection only, the specification recomputes
+    # everything) so that the candidate y ends in 0xff / 0xffff: the search for the first curve point at or after y
+    # then has to carry across one and two byte boundaries whenever that candidate is rejected
+    Q = 2 ** 255 - 19
+    want = {1: 10 if thorough else 6, 2: 3 if thorough else 2}
+    carry = []
+    for k in range(400000):
+        seed = b"carry-%d" % k
+        y = int.from_bytes(drivers_hkdf(seed, b"SPAKE2 arbitrary element", 48), "big") % Q
+        nb = 2 if y % 65536 == 65535 else 1 if y % 256 == 255 else 0
+        if nb and want[nb] > 0:
+            want[nb] -= 1
+            carry.append(seed)
+            if not any(want.values()):
+                break
+    uni.group("Ed25519")
+    for i in range(0, len(carry), 4):
+        t = Trace("derive/Ed25519/carry-%d" % i, uni)
+        for x in carry[i:i + 4]:
+            t.raw(pure.ev_arb(uni, "Ed25519", x))
+        traces.append(t.to_json())
+    ctx.cov["ed25519_seeds_with_byte_carry_in_the_y_search"] = len(carry)
 
     # soak: determinism must survive thousands of other derivations on the same group object (bounded caches, eviction)
     for g in ["i23", "Ed25519", "I1024"] + (["ed37", "I3072"] if thorough else []):
